@@ -745,3 +745,235 @@ func ruleTimeExact(c *Ctx) {
 		c.undecided("R-TIME-EXACT", "mdiff:time parser", 0, "no function of package mdiff calls time.Parse")
 	}
 }
+
+// ruleFormatCursors: the formatters walk a chunk with a left and a right line
+// counter that start at the chunk's LStart and RStart.  The left counter
+// advances by the number of lines an edit has on the left (len(e.X)), the right
+// counter by the number on the right (len(e.Y)) — except for a context edit,
+// whose lines are held in X and count on both sides.  A counter advanced by the
+// other side's length puts every later line number of the chunk off.
+// ruleUnreadBeforeSentinel: the sentinel return of the chunk reader is preceded
+// by the push-back of the foreign line, so the caller sees it again.
+func ruleFormatCursors(c *Ctx) {
+	P := c.P
+	c.rule("R-CURSOR-SIDE", 2, "a formatter's left line counter advances by len(e.X), its right counter by len(e.Y) (len(e.X) only for context edits)")
+	c.rule("R-UNREAD-FOREIGN", 1, "the chunk reader pushes the foreign line back before it reports the tolerated sentinel")
+	opF := P.Field("slice", "Edit", "Op")
+	for _, fn := range P.PkgFuncs("mdiff") {
+		fn := fn
+		// families: φ-webs seeded by loads of LStart / RStart
+		fam := map[ssa.Value]string{}
+		changed := true
+		for changed {
+			changed = false
+			allInstrs(fn, func(in ssa.Instruction) {
+				ph, ok := in.(*ssa.Phi)
+				if !ok || !isIntType(ph.Type()) || fam[ph] != "" {
+					return
+				}
+				for _, e := range ph.Edges {
+					if _, f := loadedField(e); f != nil && (f.Name() == "LStart" || f.Name() == "RStart") {
+						fam[ph] = f.Name()[:1]
+						changed = true
+						return
+					}
+					if fam[e] != "" {
+						fam[ph] = fam[e]
+						changed = true
+						return
+					}
+					if bo, ok := e.(*ssa.BinOp); ok && bo.Op == token.ADD && fam[bo.X] != "" {
+						fam[ph] = fam[bo.X]
+						changed = true
+						return
+					}
+				}
+			})
+		}
+		if len(fam) == 0 {
+			continue
+		}
+		n := 0
+		allInstrs(fn, func(in ssa.Instruction) {
+			bo, ok := in.(*ssa.BinOp)
+			if !ok || bo.Op != token.ADD || fam[bo.X] == "" {
+				return
+			}
+			ln, ok := isBuiltinCall(bo.Y, "len")
+			if !ok {
+				return
+			}
+			eb, f := loadedField(ln.Call.Args[0])
+			if f == nil || (f.Name() != "X" && f.Name() != "Y") {
+				return
+			}
+			// only advances that flow back into the counter (not line numbers computed for printing)
+			flows := false
+			for _, r := range referrersOf(bo) {
+				if ph, ok := r.(*ssa.Phi); ok && fam[ph] == fam[bo.X] {
+					flows = true
+				}
+			}
+			if !flows {
+				return
+			}
+			n++
+			c.sawFn(fnName(fn))
+			want := map[string]string{"L": "X", "R": "Y"}[fam[bo.X]]
+			okSide := f.Name() == want
+			if !okSide && fam[bo.X] == "R" && f.Name() == "X" && opF != nil {
+				// a context edit: known to be Emit here
+				for _, cm := range cmpsAt(bo.Block()) {
+					if b2, f2 := loadedField(cm.X); f2 != nil && sameField(f2, opF) && sym(b2) == sym(eb) && cm.Op == token.EQL && isConstInt(cm.Y, '=') {
+						okSide = true
+					}
+				}
+			}
+			side := map[string]string{"L": "left", "R": "right"}[fam[bo.X]]
+			c.judge(okSide, "R-CURSOR-SIDE", fmt.Sprintf("%s:%s counter += len(e.%s) #%d", fnName(fn), side, f.Name(), n), bo.Pos(), "advances by its own side's line count", fmt.Sprintf("the %s line counter is advanced by len(e.%s), the number of lines the edit has on the other side: every later line number in the chunk is off by the difference", side, f.Name()))
+		})
+	}
+	// ---- R-UNREAD-FOREIGN
+	savedF := P.Field("mdiff", "diffReader", "saved")
+	sentinels := map[*ssa.Global]bool{}
+	for _, fn := range P.PkgFuncs("mdiff") {
+		allInstrs(fn, func(in ssa.Instruction) {
+			if call, ok := in.(*ssa.Call); ok {
+				if cal := staticCallee(&call.Call); cal != nil && origin(cal).Pkg != nil && origin(cal).Pkg.Pkg.Path() == "errors" && origin(cal).Name() == "Is" && len(call.Call.Args) == 2 {
+					if ld, ok := call.Call.Args[1].(*ssa.UnOp); ok {
+						if g, ok := ld.X.(*ssa.Global); ok {
+							sentinels[g] = true
+						}
+					}
+				}
+			}
+		})
+	}
+	// the push-back: a call of a function whose body stores the reader's look-ahead field
+	pushesBack := func(in ssa.Instruction) bool {
+		call, ok := in.(*ssa.Call)
+		if !ok {
+			return false
+		}
+		cal := origin(staticCallee(&call.Call))
+		if cal == nil || cal.Blocks == nil {
+			return false
+		}
+		hit := false
+		// a method that stores its string parameter (or the cell holding it) into a field of its receiver
+		if cal.Signature.Recv() != nil && len(cal.Params) >= 2 {
+			allInstrs(cal, func(in2 ssa.Instruction) {
+				st, ok := in2.(*ssa.Store)
+				if !ok {
+					return
+				}
+				fa, ok := st.Addr.(*ssa.FieldAddr)
+				if !ok || !fromParam(fa.X, cal.Params[0]) {
+					return
+				}
+				for _, p := range cal.Params[1:] {
+					if b, ok := p.Type().Underlying().(*types.Basic); !ok || b.Kind() != types.String {
+						continue
+					}
+					if st.Val == ssa.Value(p) {
+						hit = true
+					}
+					if al, ok := st.Val.(*ssa.Alloc); ok {
+						for _, r := range referrersOf(al) {
+							if st2, ok := r.(*ssa.Store); ok && st2.Addr == ssa.Value(al) && st2.Val == ssa.Value(p) {
+								hit = true
+							}
+						}
+					}
+				}
+			})
+		}
+		if hit {
+			return true
+		}
+		allInstrs(cal, func(in2 ssa.Instruction) {
+			if st, ok := in2.(*ssa.Store); ok {
+				if fa, ok := st.Addr.(*ssa.FieldAddr); ok {
+					_, f := fieldVarOf(fa)
+					if savedF != nil && sameField(f, savedF) && !isNilConst(st.Val) {
+						hit = true
+					}
+					if savedF == nil && f != nil {
+						if pt, ok := f.Type().Underlying().(*types.Pointer); ok {
+							if b, ok := pt.Elem().Underlying().(*types.Basic); ok && b.Kind() == types.String && !isNilConst(st.Val) {
+								hit = true
+							}
+						}
+					}
+				}
+			}
+		})
+		return hit
+	}
+	n := 0
+	for _, fn := range P.PkgFuncs("mdiff") {
+		fn := fn
+		allInstrs(fn, func(in ssa.Instruction) {
+			ret, ok := in.(*ssa.Return)
+			if !ok {
+				return
+			}
+			for _, r := range ret.Results {
+				if !carriesSentinel(r, sentinels) {
+					continue
+				}
+				n++
+				c.sawFn(fnName(fn))
+				missing, wit := reachesWithout(P, firstInstr(fn), true, func(in2 ssa.Instruction) bool { return in2 == ssa.Instruction(ret) }, pushesBack)
+				c.judge(!missing, "R-UNREAD-FOREIGN", fmt.Sprintf("%s:sentinel return #%d", fnName(fn), n), ret.Pos(), "the foreign line is pushed back first", "the line that does not belong to the chunk is consumed and not pushed back before the tolerated sentinel is reported ("+wit+"): the caller's scan for the next file header starts one line late and skips that file")
+			}
+		})
+	}
+}
+
+// carriesSentinel: the error value v is fed by a load of one of the sentinel variables.
+func carriesSentinel(v ssa.Value, sentinels map[*ssa.Global]bool) bool {
+	seen := map[ssa.Value]bool{}
+	found := false
+	var walk func(v ssa.Value, d int)
+	walk = func(v ssa.Value, d int) {
+		if v == nil || seen[v] || d > 8 || found {
+			return
+		}
+		seen[v] = true
+		switch x := v.(type) {
+		case *ssa.UnOp:
+			if g, ok := x.X.(*ssa.Global); ok && sentinels[g] {
+				found = true
+				return
+			}
+			walk(x.X, d+1)
+		case *ssa.Call:
+			for _, a := range x.Call.Args {
+				walk(a, d+1)
+			}
+		case *ssa.MakeInterface:
+			walk(x.X, d+1)
+		case *ssa.ChangeInterface:
+			walk(x.X, d+1)
+		case *ssa.Slice:
+			walk(x.X, d+1)
+		case *ssa.Alloc:
+			for _, r := range referrersOf(x) {
+				if ia, ok := r.(*ssa.IndexAddr); ok {
+					for _, r2 := range referrersOf(ia) {
+						if st, ok := r2.(*ssa.Store); ok && st.Addr == ssa.Value(ia) {
+							walk(st.Val, d+1)
+						}
+					}
+				}
+			}
+		case *ssa.Phi:
+			for _, e := range x.Edges {
+				walk(e, d+1)
+			}
+		}
+	}
+	walk(v, 0)
+	return found
+}
